@@ -70,17 +70,18 @@ def one(pid, v, repo):
                     s = head + s
                 open(p, 'w').write(s)
         else:
-            p = os.path.join(tmp, v['file'])
-            s = open(p).read()
-            if v.get('regex'):
-                s2, n = re.subn(v['find'], v['replace'], s, flags=re.M)
-            else:
-                n = s.count(v['find'])
-                s2 = s.replace(v['find'], v['replace'])
-            want = v.get('count', 1)
-            if n != want or s2 == s:
-                return v['name'], 'stale', 'text occurs %d times in %s, expected %d' % (n, v['file'], want)
-            open(p, 'w').write(s2)
+            for ed in (v.get('edits') or [v]):
+                p = os.path.join(tmp, ed['file'])
+                s = open(p).read()
+                if ed.get('regex'):
+                    s2, n = re.subn(ed['find'], ed['replace'], s, flags=re.M)
+                else:
+                    n = s.count(ed['find'])
+                    s2 = s.replace(ed['find'], ed['replace'])
+                want = ed.get('count', 1)
+                if n != want or s2 == s:
+                    return v['name'], 'stale', 'text occurs %d times in %s, expected %d' % (n, ed['file'], want)
+                open(p, 'w').write(s2)
         env = dict(os.environ, VERIF_REPO=tmp, VERIF_EVIDENCE_DIR=os.path.join(tmp, '_ev'), VERIF_SELFTEST_CHILD='1', VERIF_TIER='quick')
         r = subprocess.run([os.path.join(HERE, 'check'), pid, '--tier', 'quick'], stdout=subprocess.PIPE, stderr=subprocess.STDOUT, text=True, env=env, timeout=1500)
         lines = r.stdout.splitlines()
@@ -88,6 +89,11 @@ def one(pid, v, repo):
         for i, l in enumerate(lines):
             if l.startswith('VIOLATION') and i > 0:
                 fired.append(lines[i - 1].strip().split(' ')[0])
+        try:
+            ev = json.load(open(os.path.join(tmp, '_ev', pid + '.json')))
+            fired = [o['rule'] for o in ev['coverage'].get('new_violations', [])] or fired
+        except Exception:
+            pass
         fired = sorted(set(fired))
         if 'fires' in v:
             if r.returncode != 1:
